@@ -78,10 +78,18 @@ def run(tier):
         xs = [nat(rng.randrange(1 << 254)) for _ in range(n)]
         cut = rng.randrange(0, n + 1)
         scen.append({"alg": "sponge", "len": n, "ops": [["absorb", xs[:cut]], ["absorb", xs[cut:]], ["squeeze"]]})
+    # variable-length Poseidon: every payload length 0..M of vectors of capacity 4, 8 (12), zero and non-zero filler
+    for m in ((4, 8) if q else (4, 8, 12)):
+        for n in range(0, m + 1):
+            for filler in ([], nat(5), nat(rng.randrange(1 << 254))):
+                if q and n > 5 and filler == [] and n % 2 == 0:
+                    continue
+                scen.append({"alg": "poseidon_varlen", "maxlen": m, "k": 12, "filler": filler,
+                             "inputs": [nat(rng.randrange(1 << 254)) if i % 3 else nat(rng.choice([0, 1, 2**64 - 1])) for i in range(n)]})
     log(f"[C07] MC_Sponge: {len(sess)} sessions enumerated ({len(special)} with an empty absorb right after a squeeze)")
     # tamper plans
     for s in scen:
-        if s["alg"] in ("sha256", "poseidon", "sha256_varlen") and rng.random() < (0.25 if q else 0.6):
+        if s["alg"] in ("sha256", "poseidon", "sha256_varlen", "poseidon_varlen") and rng.random() < (0.25 if q else 0.6):
             s.update({"faults": ["plus1", "zero"] if q else ["plus1", "minus1", "zero", "pow2_16", "random"],
                       "max_index": 12 if q else 80, "spread": True, "offset": rng.randrange(0, 5000)})
     log(f"[C07] {len(scen)} scenarios ({sum(1 for s in scen if 'faults' in s)} with tamper plans)")
